@@ -7,9 +7,9 @@ def PyMode (q : Nat) (tbl : List (Nat × Text)) : Prop :=
 
 theorem py_class (c q : Nat) :
     c = 92 ∨ c = 7 ∨ c = 8 ∨ c = 12 ∨ c = 10 ∨ c = 13 ∨ c = 9 ∨ c = 11 ∨ c = q ∨ c = 0 ∨
-    (0xD800 ≤ c ∧ c ≤ 0xDFFF) ∨
+    (0xD800 ≤ c ∧ c ≤ 0xDFFF ∨ c = 28 ∨ c = 29 ∨ c = 30 ∨ c = 133 ∨ c = 8232 ∨ c = 8233) ∨
     (c ≠ 92 ∧ c ≠ 7 ∧ c ≠ 8 ∧ c ≠ 12 ∧ c ≠ 10 ∧ c ≠ 13 ∧ c ≠ 9 ∧ c ≠ 11 ∧ c ≠ q ∧ c ≠ 0 ∧
-      ¬ (0xD800 ≤ c ∧ c ≤ 0xDFFF)) := by omega
+      ¬ (0xD800 ≤ c ∧ c ≤ 0xDFFF ∨ c = 28 ∨ c = 29 ∨ c = 30 ∨ c = 133 ∨ c = 8232 ∨ c = 8233)) := by omega
 
 macro "py_ne" c:ident : tactic => `(tactic| (
   have : ¬ 92 = $c := by omega
@@ -24,16 +24,17 @@ macro "py_ne" c:ident : tactic => `(tactic| (
   have : ¬ 34 = $c := by omega
   have : ¬ $c = 0 := by omega))
 
-theorem pyEsc_sur (q : Nat) (tbl : List (Nat × Text)) (hm : PyMode q tbl) (c : Nat) (h : 0xD800 ≤ c ∧ c ≤ 0xDFFF) :
+theorem pyEsc_sur (q : Nat) (tbl : List (Nat × Text)) (hm : PyMode q tbl) (c : Nat)
+    (h : 0xD800 ≤ c ∧ c ≤ 0xDFFF ∨ c = 28 ∨ c = 29 ∨ c = 30 ∨ c = 133 ∨ c = 8232 ∨ c = 8233) :
     pyEscChar tbl c = 92 :: 117 :: fmtHex 4 c := by
   py_ne c
   rcases hm with ⟨rfl, rfl⟩ | ⟨rfl, rfl⟩ <;> simp [pyEscChar, lookup, Gen.Lit.pySingle, Gen.Lit.pyDouble, *]
 
 theorem pyEsc_raw (q : Nat) (tbl : List (Nat × Text)) (hm : PyMode q tbl) (c : Nat)
     (h : c ≠ 92 ∧ c ≠ 7 ∧ c ≠ 8 ∧ c ≠ 12 ∧ c ≠ 10 ∧ c ≠ 13 ∧ c ≠ 9 ∧ c ≠ 11 ∧ c ≠ q ∧ c ≠ 0 ∧
-      ¬ (0xD800 ≤ c ∧ c ≤ 0xDFFF)) :
+      ¬ (0xD800 ≤ c ∧ c ≤ 0xDFFF ∨ c = 28 ∨ c = 29 ∨ c = 30 ∨ c = 133 ∨ c = 8232 ∨ c = 8233)) :
     pyEscChar tbl c = [c] := by
-  have hns : ¬ (0xD800 ≤ c ∧ c ≤ 0xDFFF) := h.2.2.2.2.2.2.2.2.2.2
+  have hns : ¬ (0xD800 ≤ c ∧ c ≤ 0xDFFF ∨ c = 28 ∨ c = 29 ∨ c = 30 ∨ c = 133 ∨ c = 8232 ∨ c = 8233) := h.2.2.2.2.2.2.2.2.2.2
   rcases hm with ⟨rfl, rfl⟩ | ⟨rfl, rfl⟩
   · have : ¬ 92 = c := by omega
     have : ¬ 7 = c := by omega
@@ -129,7 +130,7 @@ theorem py_okSrc (q : Nat) (tbl : List (Nat × Text)) (hm : PyMode q tbl) (c : N
       exact ⟨okSrc_small (fmtHex4_small c h16 x hx), by omega⟩
   · rw [pyEsc_raw q tbl hm c h'] at hx
     simp only [List.mem_singleton] at hx; subst hx
-    exact ⟨⟨hc, h'.2.2.2.2.2.2.2.2.2.2⟩, h'.2.2.2.2.2.2.2.2.2.1⟩
+    exact ⟨⟨hc, by have := h'.2.2.2.2.2.2.2.2.2.2; omega⟩, h'.2.2.2.2.2.2.2.2.2.1⟩
 
 /-- an escape is never empty and never starts with the quote -/
 theorem py_head (q : Nat) (tbl : List (Nat × Text)) (hm : PyMode q tbl) (c : Nat) :
